@@ -12,6 +12,7 @@ import (
 	"sort"
 
 	"github.com/cosmos/iavl"
+	ics23 "github.com/cosmos/ics23/go"
 	dbm "github.com/cosmos/iavl/db"
 
 	"verif/internal/codec"
@@ -100,6 +101,42 @@ func legacygenPath() string {
 	return "bin/legacygen"
 }
 
+// checkVersionedProofs: every retained version (legacy ones in particular) yields proofs through
+// GetVersionedProof and through GetImmutable(v).GetProof that verify against that version's hash.
+func checkVersionedProofs(e *v1x.Env, universe [][]byte, maxVers int) {
+	vs := e.M.Versions()
+	for i := 0; i < len(vs) && i < maxVers; i++ {
+		v := vs[i]
+		snap := e.M.Vers[v]
+		if len(snap) == 0 {
+			continue
+		}
+		root := e.R.Hashes[v]
+		for j, k := range v1x.Probes(universe, snap) {
+			if j%3 != int(v)%3 || !v1x.ProofCheckable(snap, k) {
+				continue
+			}
+			val, present := snap[string(k)]
+			pr, err := e.T.GetVersionedProof(k, v)
+			if err != nil {
+				e.Bad("legacy|proof|getversionedproof-error", "GetVersionedProof(%q, %d) (present=%v): %v", k, v, present, err)
+				return
+			}
+			ok := false
+			if present {
+				ok = ics23.VerifyMembership(ics23.IavlSpec, root, pr, k, []byte(val))
+			} else {
+				ok = ics23.VerifyNonMembership(ics23.IavlSpec, root, pr, k)
+			}
+			if !ok {
+				e.Bad("legacy|proof|verify", "GetVersionedProof(%q, %d) (present=%v) does not verify against the version's root %x", k, v, present, root)
+				return
+			}
+			e.C.Obs("versioned_proofs_verified", 1)
+		}
+	}
+}
+
 func init() {
 	fw.Register(&fw.Check{
 		ID:          "C16",
@@ -107,7 +144,7 @@ func init() {
 		Cases:       func(tier string) int { return tierN(tier, 96, 3000) },
 		CaseTimeout: 300e9,
 		Rule: "case = one legacy database written by the REAL legacy library (iavl v0.20.0 from the module cache, driven by /verif/legacygen over GoLevelDB with a seeded history of 3-10 versions incl. commits without writes; legacy-side deletions none / DeleteVersion of random versions / DeleteVersionsRange so that orphan records exist and the version list can have holes) plus 4 (quick) / 10 (thorough) independent follow-up histories, each on a fresh copy of that database opened by the current library (cache 0/3/1000, fast index on/off, flush threshold 150..default): new-format commits with and without writes on the legacy root, DeleteVersionsTo below / at / above the boundary, LoadVersionForOverwriting to a legacy version, reopenings, loads of legacy versions and re-commits. " +
-			"Oracles: the generator's record (contents and root hash of every surviving legacy version as reported by the legacy library) for the opening state; then the model M and the reference tree R (legacy trees are decoded from raw storage by D and must re-hash to their keys under R's rules) after every step: availability on every API, full read battery, hashes of every retained version and of every new commit. DeleteVersionsTo below the newest legacy version is modelled as the documented no-op. " +
+			"Every retained version must also yield GetVersionedProof proofs that verify under ics23 against its hash; every second successful rollback into or across the legacy range is repeated under single storage faults (the C17 enumeration on a copy of the database before the rollback). Oracles: the generator's record (contents and root hash of every surviving legacy version as reported by the legacy library) for the opening state; then the model M and the reference tree R (legacy trees are decoded from raw storage by D and must re-hash to their keys under R's rules) after every step: availability on every API, full read battery, hashes of every retained version and of every new commit. DeleteVersionsTo below the newest legacy version is modelled as the documented no-op. " +
 			"distinct = hash(legacy seed, follow-up ops); non-trivial = the follow-up committed >=1 new version on top and crossed the boundary with >=1 prune or rollback.",
 		Assumptions: []string{"iavl v0.20.0 + cometbft-db v0.7.0 (module cache) produce the legacy databases; their record is trusted", "legacy histories are those the 0.20 API produces over GoLevelDB without its fast index"},
 		Run: func(c *fw.Ctx) {
@@ -226,6 +263,7 @@ func init() {
 					e.CheckAllVersions(universe, 12)
 					checkBookkeeping(e, e.T, "opened", universe[0], false)
 					checkHashes(e, "legacy-open", true)
+					checkVersionedProofs(e, universe, 12)
 					c.Obs("legacy_versions_checked", len(rec.Versions))
 					newCommits, crossed := 0, 0
 					// legacyTop = newest version still stored in the legacy format
@@ -277,9 +315,24 @@ func init() {
 							c.Obs("prunes_below_boundary", 1)
 						} else {
 							firstBefore := e.M.First
+							var lfoBase *seam.MemStore
+							var lfoOld *vstate
+							if op.Kind == "lfo" && e.M.Exists(op.N) && op.N < e.M.Latest && taint == "" && !e.M.Dirty && (c.Index+f)%2 == 0 {
+								lfoBase, _ = seam.Dump(db)
+								lfoOld = captureState(e)
+							}
 							out := e.Apply(op, true)
 							if e.Dead {
 								break
+							}
+							if lfoBase != nil && out.Err == nil && !out.Expect.Fail && len(c.Res.Violations) == 0 {
+								// the same rollback under single storage faults (C17's enumeration, on a copy of
+								// the database as it was before the rollback): reported, or carried out
+								n := op.N
+								fo := &fop{name: "LoadVersionForOverwriting", write: true, old: lfoOld, new: captureState(e), kind: "lfo"}
+								fo.run = func(t *iavl.MutableTree) (string, error) { return "", t.LoadVersionForOverwriting(n) }
+								probeOp(c, lfoBase, e.Cfg, fo, universe, "legacy database; "+e.Tail(12), 0, 60)
+								c.Obs("legacy_rollbacks_fault_enumerated", 1)
 							}
 							if op.Kind == "save" && out.Err == nil && !out.Expect.Existing {
 								newCommits++
@@ -303,6 +356,9 @@ func init() {
 						e.CheckAllVersions(universe, 6)
 						checkBookkeeping(e, e.T, "live", universe[0], false)
 						checkHashes(e, "legacy", true)
+						if e.Step%3 == 0 {
+							checkVersionedProofs(e, universe, 4)
+						}
 						h2 := e.OpenHandle(e.Cfg)
 						if _, err := h2.Load(); err != nil {
 							e.Bad("legacy|reopen|load", "Load() on a fresh handle: %v", err)
